@@ -150,6 +150,11 @@ let run_case ~(checked : bool) ~(ffr : bool) (nslots : int) (slot : int) (blk : 
             let (d, r) = Mgr.is_valid_firmware m (nat_of_int i) !dev in
             dev := d;
             (match r with Mgr.RPanic -> "panic" | Mgr.RErr e -> "err:" ^ merr_name e | Mgr.ROk () -> "ok") end
+        | "ovalid", [i] ->
+          let (d, r) = Mgr.orig_check_crc m (nat_of_int (int_of_string i)) !dev in
+          dev := d;
+          (match r with Mgr.RPanic -> "panic" | Mgr.ROk () -> "ok"
+                      | Mgr.RErr (Mgr.MSpi _) -> "err:Spi" | Mgr.RErr e -> "err:" ^ merr_name e)
         | "markbl", [_] when !last_bl = None -> "nobl"
         | ("mark" | "markbl"), k :: irest ->
           let i = match irest with [i] -> int_of_string i | _ -> (match !last_bl with Some i -> i | None -> 0) in
